@@ -121,7 +121,17 @@ class BadReduceKeyError(object):
         return 13
 
 
+class BadHashRuntime(object):
+    """unhashable, but says so with another exception than TypeError (as a writable memoryview does with ValueError)"""
+    def __hash__(self):
+        raise RuntimeError('detached object has no stable identity to hash')
+
+
 def hostile(kind):
+    if kind == 'badhashrt':
+        return BadHashRuntime()
+    if kind == 'memview':
+        return memoryview(bytearray(b'ab'))       # hash() raises ValueError: cannot hash writable memoryview object
     if kind == 'gen':
         return (i for i in range(2))
     if kind == 'lam':
@@ -143,7 +153,7 @@ def hostile(kind):
     raise ValueError(kind)
 
 
-HOSTILE_KINDS = ['gen', 'lam', 'badhash', 'badrepr', 'badreduce', 'badhashkey', 'badreprkey', 'badreducekey']   # 'badeq' (raising __eq__) is outside the statement: neither unhashable nor unencodable
+HOSTILE_KINDS = ['gen', 'lam', 'badhashrt', 'memview', 'badhash', 'badrepr', 'badreduce', 'badhashkey', 'badreprkey', 'badreducekey']   # 'badeq' (raising __eq__) is outside the statement: neither unhashable nor unencodable
 
 
 def has_float(spec):
